@@ -37,30 +37,30 @@ Section Instance.
   Proof. exact (dlog_accepted _ _ _ enc_done _ _ _ _ _ _ _ _ _ _ _ cfg instance_comps_ok Hcfg o0 i0 I I h Hh Hs i). Qed.
 
   Theorem instance_first_transmission l1 e l2 pb :
-    i_dlog cfg k h = l1 ++ e :: l2 -> pub_of i e = Some pb -> submitted i l1 -> (forall x, In x l1 -> pub_of i x = None) ->
+    i_dlog cfg k h = l1 ++ e :: l2 -> pub_of i e = Some pb -> submitted i (i_dlog cfg k h) -> (forall x, In x l1 -> pub_of i x = None) ->
     pub_dup pb = false /\ 1 <= pub_pid pb <= 65535 /\ pub_qos pb <> 0 /\
     exists p0, In (DS i p0) l1 /\ pubq p0 = true /\ norm (Publish pb) = norm p0.
   Proof. exact (wire_first_transmission _ _ _ enc_done _ _ _ _ _ _ _ _ _ _ _ cfg instance_comps_ok Hcfg o0 i0 I I h Hh Hs i l1 e l2 pb). Qed.
 
   Theorem instance_no_second_publish l1 e1 lm e2 l2 pb1 pb2 :
-    i_dlog cfg k h = l1 ++ e1 :: lm ++ e2 :: l2 -> submitted i l1 -> pub_of i e1 = Some pb1 -> pub_of i e2 = Some pb2 ->
+    i_dlog cfg k h = l1 ++ e1 :: lm ++ e2 :: l2 -> submitted i (i_dlog cfg k h) -> pub_of i e1 = Some pb1 -> pub_of i e2 = Some pb2 ->
     exists x, In x lm /\ boundary x = true.
   Proof. exact (wire_no_second_publish _ _ _ enc_done _ _ _ _ _ _ _ _ _ _ _ cfg instance_comps_ok Hcfg o0 i0 I I h Hh Hs i l1 e1 lm e2 l2 pb1 pb2). Qed.
 
   Theorem instance_pubrel_after_pubrec l1 e1 lm e2 l2 a p :
-    i_dlog cfg k h = l1 ++ e1 :: lm ++ e2 :: l2 -> submitted i l1 -> rec_of i e1 = Some a -> enc_of i e2 = Some p ->
+    i_dlog cfg k h = l1 ++ e1 :: lm ++ e2 :: l2 -> rec_of i e1 = Some a -> enc_of i e2 = Some p ->
     (forall x, In x lm -> sess_item x <> Some false) ->
     p = Pubrel (default_ack (ack_pid a)).
   Proof. exact (wire_pubrel_after_pubrec _ _ _ enc_done _ _ _ _ _ _ _ _ _ _ _ cfg instance_comps_ok Hcfg o0 i0 I I h Hh Hs i l1 e1 lm e2 l2 a p). Qed.
 
   Theorem instance_retransmission l1 e l2 pb :
-    i_dlog cfg k h = l1 ++ e :: l2 -> submitted i l1 -> pub_of i e = Some pb -> pub_dup pb = true ->
+    i_dlog cfg k h = l1 ++ e :: l2 -> submitted i (i_dlog cfg k h) -> pub_of i e = Some pb -> pub_dup pb = true ->
     sp_now l1 /\ wrote i (pub_pid pb) l1 /\ pub_qos pb <> 0 /\
     exists p0, In (DS i p0) l1 /\ pubq p0 = true /\ norm (Publish pb) = norm p0.
   Proof. exact (wire_retransmission _ _ _ enc_done _ _ _ _ _ _ _ _ _ _ _ cfg instance_comps_ok Hcfg o0 i0 I I h Hh Hs i l1 e l2 pb). Qed.
 
   Theorem instance_restart l1 e1 lm e2 l2 p :
-    i_dlog cfg k h = l1 ++ e1 :: lm ++ e2 :: l2 -> submitted i l1 -> sess_item e1 = Some false -> enc_of i e2 = Some p ->
+    i_dlog cfg k h = l1 ++ e1 :: lm ++ e2 :: l2 -> submitted i (i_dlog cfg k h) -> sess_item e1 = Some false -> enc_of i e2 = Some p ->
     (forall x, In x lm -> enc_of i x = None) ->
     exists pb, p = Publish pb /\ pub_dup pb = false /\ 1 <= pub_pid pb <= 65535 /\ pub_qos pb <> 0.
   Proof. exact (wire_restart _ _ _ enc_done _ _ _ _ _ _ _ _ _ _ _ cfg instance_comps_ok Hcfg o0 i0 I I h Hh Hs i l1 e1 lm e2 l2 p). Qed.
